@@ -592,7 +592,7 @@ type c09Site struct {
 // closure the translation of its captured variables / the makers' parameters
 // into the frame of the instruction that called the (outermost) maker.
 type c09Yielder struct {
-	Fn *ssa.Function          // func(yield) { … }
+	Fn *ssa.Function               // func(yield) { … }
 	Tr func(v ssa.Value) ssa.Value // producer frame -> frame of the maker call
 }
 
@@ -693,6 +693,7 @@ func c09RangeFuncCall(in ssa.Instruction) (seq ssa.Value, body *ssa.Function, ok
 //     (parameters = the yielded values);
 //   - closure called directly where it is created, or immediately applied;
 //   - producer closure returned by a maker: the places where the maker's result is invoked.
+//
 // closed is false when some entry cannot be seen.
 func c09SitesOf(p *Prog, fn *ssa.Function) (sites []c09Site, closed bool) {
 	if fn.Parent() == nil {
@@ -934,5 +935,56 @@ func c09ItersIn(fn *ssa.Function) []*c09Iter {
 			}
 		}
 	})
+	return out
+}
+
+// c09CellStores: every store to the local variable behind addr (an Alloc, or a
+// free variable bound to one), in its function and in the closures that capture it.
+func c09CellStores(addr ssa.Value) []*ssa.Store {
+	var cell *ssa.Alloc
+	switch a := addr.(type) {
+	case *ssa.Alloc:
+		cell = a
+	case *ssa.FreeVar:
+		v := ssa.Value(a)
+		for depth := 0; depth < 4; depth++ {
+			fv, ok := v.(*ssa.FreeVar)
+			if !ok {
+				break
+			}
+			bs := freeVarBindings(fv)
+			if len(bs) == 0 {
+				return nil
+			}
+			v = bs[0]
+		}
+		cell, _ = v.(*ssa.Alloc)
+	}
+	if cell == nil {
+		return nil
+	}
+	var out []*ssa.Store
+	var visit func(x ssa.Value, depth int)
+	visit = func(x ssa.Value, depth int) {
+		if depth > 4 || x.Referrers() == nil {
+			return
+		}
+		for _, r := range *x.Referrers() {
+			switch u := r.(type) {
+			case *ssa.Store:
+				if u.Addr == x {
+					out = append(out, u)
+				}
+			case *ssa.MakeClosure:
+				fn := u.Fn.(*ssa.Function)
+				for i, b := range u.Bindings {
+					if b == x && i < len(fn.FreeVars) {
+						visit(fn.FreeVars[i], depth+1)
+					}
+				}
+			}
+		}
+	}
+	visit(cell, 0)
 	return out
 }
